@@ -23,7 +23,7 @@ func mustValue(js string) codec.Value {
 
 func init() {
 	register("render", func(r *gen.R, n int, c *caseWriter) {
-		keys := []string{"a", "b", "name", "a\"b", "<x>", "é", "k 1", "", "\\", " "}
+		keys := []string{"a\x7fb", "\x01", "t\tn\n", "\xff", "a", "b", "name", "a", "b", "name", "a\"b", "<x>", "é", "k 1", "", "\\", " "}
 		prims := []string{`1`, `"s"`, `true`, `null`, `-2.5e3`, `"a\"b"`, `"<>&"`, `""`}
 		datas := []string{`{"x":1}`, `[1,2]`, `{"a":{"b":[]}}`, `[]`}
 		prefixes := []string{"/api/", "/", "/a/b/", "/v1.2/"}
